@@ -20,7 +20,7 @@ OUT = "/tmp/verif_mut/out"
 
 # (id, property, file, old, new, description)
 M = [
-    ("m01a", "C01", "include/interface_put.h",
+    ("m01a", "C11", "include/interface_put.h",
      "            lv_ptr = target_border->get_lv_of_without_lock(key_slice, key_slice_length);\n            if (lv_ptr == nullptr) {\n                target_border->version_unlock();\n                goto retry_fetch_lv; // NOLINT\n            }\n",
      "",
      "put(update): drop the re-lookup under the lock (deletes are not tracked by the version)"),
